@@ -5,11 +5,12 @@ From DD Require Export GC.
 (** fields that the table-rewriting phases never touch *)
 Definition keep (s s' : st) : Prop :=
   refc s' = refc s ∧ min_free s' = min_free s ∧ ite_tab s' = ite_tab s ∧
-  vars s' = vars s ∧ lvl2var s' = lvl2var s ∧ last_len s' = last_len s.
+  vars s' = vars s ∧ lvl2var s' = lvl2var s ∧ last_len s' = last_len s ∧
+  max_nodes s' = max_nodes s.
 Global Instance keep_refl : Reflexive keep.
 Proof. intros s. by repeat split. Qed.
 Global Instance keep_trans : Transitive keep.
-Proof. intros s1 s2 s3 (?&?&?&?&?&?) (?&?&?&?&?&?). split_and!; congruence. Qed.
+Proof. intros s1 s2 s3 (?&?&?&?&?&?&?) (?&?&?&?&?&?&?). split_and!; congruence. Qed.
 
 (** [al] maps every level to exactly the nodes of that level *)
 Definition levels_ok (s : st) (al : levels_t) : Prop :=
